@@ -92,6 +92,7 @@ pub fn gen_run(rng: &mut Rng, max_scen: usize, allow_serial: bool) -> GenRun {
         builder_conc: match rng.below(4) { 0 => None, 1 => Some(None), _ => Some(Some(rng.range(1, 3))) },
         cli_conc: rng.chance(1, 4).then(|| rng.range(1, 3)),
         fifo_bias: *rng.pick(&[0usize, 0, 4, 8]),
+        eager: rng.chance(1, 3),
         ..RunCfg::default()
     };
     GenRun { feats, cfg, scripts, info }
